@@ -194,6 +194,8 @@ def eval_c02(g, h, cx, res, out):
             out.append(Violation('C02', 'create-callback', g, res, f'create_node_{name}(NodeRef({node})): node there has rule #{nrule} offset {noff} (vector length {nlen}), announced {want}')); return
     for bad in (res.cb or []):
         out.append(Violation('C02', 'create-callback-subtree', g, res, bad)); return
+    for bad in (res.final or []):
+        if bad[0] == 'announced-node-overwritten': out.append(Violation('C02', bad[0], g, res, bad[1])); return
 
 def _c02_tree(g, h, cx, res, out, pc, triv):
     def rec(w, is_root):
@@ -388,6 +390,9 @@ def confirm(h, g, v):
     tmo = 5 if v.kind in ('lasso', 'recursion', 'budget') else 30
     o = harness.run_native(h, [(v.entry, toks, v.script)], timeout=tmo)[0]
     v.native = o if len(json.dumps(o)) < 3000 else {'truncated': True}
+    if v.kind == 'announced-node-overwritten':
+        # node identity is observed on the real code's MIR; confirmed when the native run produces exactly the predicted outputs
+        return list(v.witness) == list(v._res.witness) and run.compare_native(h, v._res, o) is None
     if v.prop == 'C08':
         if v.kind in ('state-not-restored', 'missing-delete') and list(v.witness) == list(v._res.witness):
             # internal state of the real code, observed on its MIR: confirmed when the native run of the same input
